@@ -16,8 +16,7 @@ MANIFEST = {
             'and every entry has its two low bits clear; every acceptance test that uses the table (utf8_valid_up_to, '
             'convert_utf8_to_utf16_up_to_invalid, mem) has one of the two expression shapes this interpretation assumes '
             '((t[second] & t[lead+0x80]) | third>>6) != 2, resp. ... | (fourth & 0xC0) << 2 != 0x202, with the operands being src[read+1..3] '
-            'and the lead; (D3) the lead-class comparisons of the scalar validators denote exactly {<80}, {C2-DF}, {<F0} and the second-byte '
-            'test 80-BF (exact interval extraction); the ISO-2022-JP validator rejects exactly {0E, 0F, 1B, >=80}; utf16_valid_up_to uses exactly '
+            'and the lead; (D3) the ISO-2022-JP validator rejects exactly {0E, 0F, 1B, >=80}; utf16_valid_up_to uses exactly '
             'the surrogate partitions and tests exactly the index it reads after a high surrogate; (D4) every unchecked read of the validators '
             'is in bounds (available-guard dataflow, shared with C06) — an out-of-bounds read would make the answer meaningless; '
             '(D5, R-SCAN) the index-driven scalar automata (utf8_valid_up_to, convert_utf8_to_utf16_up_to_invalid, the surrogate loop of '
@@ -182,26 +181,8 @@ LEAD_SIDES = [I((0, 0x7F)), I((0, 0xC1), (0xE0, 0xFF)), I((0, 0xEF)), I((0, 0x7F
 
 
 def d3(rep, f, c):
-    n = 0
-    for fn in ('utf_8::utf8_valid_up_to', 'utf_8::convert_utf8_to_utf16_up_to_invalid'):
-        b = f.body(fn)
-        if b is None:
-            rep.undecidable('C14-D3', fn, 'not found', None, c)
-            continue
-        found = set()
-        for p in scalar_predicates(f, b):
-            if p['bits'] != 8 or p['true_set'] is None:
-                continue
-            cs = canon(p['true_set'], p['N'])
-            if len(cs) in (0, p['N']):
-                continue
-            n += 1
-            found.add(repr(cs))
-            rep.ob('C14-D3.lead', '%s:%r' % (fn, cs), cs in LEAD_SIDES, 'byte-class comparison denotes %r; the UTF-8 validator\'s classes are <80, C2-DF, <F0, E0-EF and 80-BF' % cs,
-                   p['at'], {'set': repr(cs)}, c)
-        for need in LEAD_SIDES[:4]:
-            rep.ob('C14-D3.present', '%s:%r' % (fn, need), repr(need) in found, 'expected byte class %r not tested' % need, sp_str(b.raw['span']), None, c)
-    rep.floor('C14-D3.lead', 'byte-class comparisons in the scalar UTF-8 validators', n, 20, c)
+    # the byte classes of the scalar UTF-8 validators are decided semantically by R-SCAN (D5); a per-comparison whitelist used here
+    # before R-SCAN existed was removed because it fired on behaviour-preserving rewrites (x < 0x80 || x > 0xBF)
     rej = r_decclass.validator_reject_set(f, 'ascii::iso_2022_jp_ascii_valid_up_to')
     rep.ob('C14-D3.iso2022jp', 'ascii::iso_2022_jp_ascii_valid_up_to', rej == I(0x0E, 0x0F, 0x1B, (0x80, 0xFF)), 'reject set %r; must be {0E, 0F, 1B, 80-FF}' % rej, None, {'reject': repr(rej)}, c)
     # ASCII threshold of the scalar stride/tail validators
